@@ -1,51 +1,9 @@
 """C18 — registry credentials and custom headers reach only their own image and host."""
-import os
-import re
-
-import vlib
-
-
-def _facts(ctx):
-    """Structural tie for the atomicity premises, regenerated from the current sources:
-    * the keychain map is only touched between configMu.Lock/Unlock (so every schedule of
-      PullImage/RemoveImage/credentials is a history of the atomic operations of the model);
-    * refreshURL stores url and header together under urlMu (the atomic `refresh` step).
-    Also records (informational, not a tie) whether fetch/check read f.header under urlMu -- they do
-    not in the current code, which is the known weakness replayed by TestVerifC18Race."""
-    n = 0
-    try:
-        src = open(os.path.join(vlib.REPO, "service/keychain/cri/cri.go")).read()
-    except OSError:
-        ctx.broken.append("fact:missing:service/keychain/cri/cri.go")
-        src = None
-    if src is not None:
-        uses = len(re.findall(r"in\.config\[|delete\(in\.config\b", src))
-        locked = len(re.findall(
-            r"in\.configMu\.Lock\(\)\s*\n(?:\s*defer in\.configMu\.Unlock\(\)\s*\n)?"
-            r"\s*(?:if cfg, ok := in\.config\[|in\.config\[[^\]\n]+\] = |delete\(in\.config,)", src))
-        if uses != locked or uses == 0:
-            ctx.broken.append(f"fact:config-under-configMu:{locked}/{uses}")
-        else:
-            n += uses
-    try:
-        rsrc = open(os.path.join(vlib.REPO, "fs/remote/resolver.go")).read()
-    except OSError:
-        ctx.broken.append("fact:missing:fs/remote/resolver.go")
-        rsrc = None
-    if rsrc is not None:
-        if not re.search(r"f\.urlMu\.Lock\(\)\s*\n\s*f\.url = \w+\s*\n\s*f\.header = \w+\s*\n\s*f\.urlMu\.Unlock\(\)", rsrc):
-            ctx.broken.append("fact:refreshURL-stores-url-and-header-under-urlMu")
-        else:
-            n += 1
-        unlocked_reads = len(re.findall(r"maps\.Copy\(req\.Header, f\.header\)", rsrc))
-        ctx.cov["stats"].setdefault("facts", {})["header_reads_outside_urlMu"] = unlocked_reads
-    ctx.cov["facts_checked"] += n
 
 
 def run(ctx):
     ctx.lean_obligations(["SV.Props.C18"], drivers=["svdriver_c18"])
     quick = ctx.tier == "quick"
-    _facts(ctx)
     seeds = [None] if quick else [None, ctx.seed * 7919 + 1, ctx.seed * 7919 + 2]
 
     def env(n, s):
@@ -58,10 +16,28 @@ def run(ctx):
     if b:
         for i, s in enumerate(seeds):
             ctx.correspond(b, "TestVerifC18Keychain", "svdriver_c18", f"c18k{i}", env=env(200 if quick else 4000, s))
+    # concurrent pull / remove / query under the race detector: replaces any assumption about how
+    # the keychain locks its map by an observation (a reported data race fails the run = violation
+    # whose replay holds the detector's report with both goroutine stacks)
+    br = ctx.go_test_binary("service/keychain/cri", "h_cri_race", race=True)
+    if br:
+        ctx.correspond(br, "TestVerifC18KeychainConc", "svdriver_c18", "c18kconc", env={"VERIF_N": 20 if quick else 300})
+    # service/resolver: the file zz_verif_c18u names the unexported multiCredsFuncs.  When it no
+    # longer compiles (a rename is not a property violation) build without it; the same predicate is
+    # evaluated through the public wiring (mcb lines of TestVerifC18Resolver) in both cases.
+    nbroken = len(ctx.broken)
     b = ctx.go_test_binary("service/resolver", "h_resolver")
+    direct = b is not None
+    if not b:
+        del ctx.broken[nbroken:]
+        ctx.notes.append("multiCredsFuncs not reachable by name; multi-credential predicate evaluated through "
+                         "RegistryHostsFromConfig + docker authorizer only")
+        b = ctx.go_test_binary("service/resolver", "h_resolver", only=["c18p"])
     if b:
         for i, s in enumerate(seeds):
             ctx.correspond(b, "TestVerifC18Resolver", "svdriver_c18", f"c18r{i}", env=env(1500 if quick else 40000, s))
+            if direct:
+                ctx.correspond(b, "TestVerifC18MultiCreds", "svdriver_c18", f"c18m{i}", env=env(1500 if quick else 40000, s))
     b = ctx.go_test_binary("fs/remote", "h_remote")
     if b:
         for i, s in enumerate(seeds):
@@ -69,6 +45,11 @@ def run(ctx):
         # labelled stream: the counterexample of `headers_only_to_registry_host_concurrent_fails`
         # replayed on the implementation (two goroutines sharing one fetcher)
         ctx.correspond(b, "TestVerifC18Race", "svdriver_c18", "c18race", env={"VERIF_N": 5})
+    # overlapping ReadAt / Cache / Check / Refresh on one blob while redirect URLs expire, under the
+    # race detector: observes the atomicity of the fetcher's (url, header) pair instead of assuming it
+    br = ctx.go_test_binary("fs/remote", "h_remote_race", race=True)
+    if br:
+        ctx.correspond(br, "TestVerifC18HeadersConc", "svdriver_c18", "c18hconc", env={"VERIF_N": 6 if quick else 60})
     return ctx.finish(
         level="proof",
         rule="keychain: every name of the grammar domain(10) x path(6) x tag(5) x digest(2) + malformed names is "
@@ -85,18 +66,20 @@ def run(ctx):
              "authorised) that change during the history, expiring redirect URLs, and per-operation forced answers "
              "(403/400/401/5xx/transport error/redirect) over Resolve/ReadAt/Cache/Check/Refresh; every request is "
              "logged with host and headers; a history is distinct by its sequence of (operation, server answers); "
-             "each op is compared impl-vs-model (requests as (wire class, target host, carried header set), fetcher "
-             "state, result) and the confinement predicate is evaluated on every request of the implementation",
+             "each op is compared impl-vs-model (requests as (wire class, target host, carried header set), "
+             "result) and the confinement predicate is evaluated on every request of the implementation",
         assumptions=[
-            "instrumentedService.config is only touched under configMu (checked each run on the sources), hence every "
-            "schedule of pull/remove/query is a sequence of the atomic operations the theorems quantify over",
+            "each PullImage/RemoveImage/credentials call takes effect atomically, so every schedule is a history of "
+            "the operations the theorems quantify over; not assumed from the source text but observed: concurrent "
+            "pull/remove/query runs under the race detector with a per-reference oracle (TestVerifC18KeychainConc)",
             "norm = distribution.ParseDockerRef + reference.Parse is a parameter of the keychain theorems; the concrete "
             "normDocker used by the driver is validated on the generated grammar only",
             "url.Parse: the URL-host model is exact for addresses without '%', '[' and control bytes (validated against "
             "net/url each run); base64 = StdEncoding, non-strict",
-            "header theorems are about sequences of atomic fetcher operations; for two goroutines sharing one fetcher "
-            "the claim is false (fetch/check read f.header outside urlMu) -- counterexample proved in Lean and replayed "
-            "on the implementation by TestVerifC18Race",
+            "header theorems are about sequences of atomic fetcher operations: a request must be built from ONE "
+            "(url, header) state.  Where that fails the claim is false (counterexample proved in Lean, "
+            "headers_only_to_registry_host_concurrent_fails; fixed in /repo by c16e994); observed each run by the "
+            "deterministic replay TestVerifC18Race and by TestVerifC18HeadersConc under the race detector",
             "docker.Authorizer token requests, HTTP body syntax, go-retryablehttp retries are outside the model "
             "(a retried request is a clone: same URL, same headers)",
         ])
